@@ -25,6 +25,7 @@ from ..rng import Chooser
 from .common import Violation, base_result, probe
 
 PROP = "C07"
+RUN_TIMEOUT_S = {"quick": 400, "thorough": 1200}   # 4-24 real CLI processes per run
 SHIM_DIR = os.path.join(engine.VERIF, "factosim", "shim")
 DET_PLAN = {"solver": {"mode": "det", "seed": 0, "budget": 0.05}}
 _CMP = {"==": "=", "!=": "≠", ">=": "≥", "<=": "≤", "=": "=", ">": ">", "<": "<", "≠": "≠", "≥": "≥", "≤": "≤"}
